@@ -250,7 +250,6 @@ func buildChain(c *vh.Ctx, spec cfgSpec, n int) *chainT {
 	ch.genesis = ch.gspec.MustCommit(ch.gendb)
 	g := &txgen{r: r, cfg: spec.cfg}
 	parent := ch.genesis
-	hf5 := spec.cfg.GetHF(5)
 	usedUncle := map[int]bool{}
 	fill := func(b *core.BlockGen, maxTx int, kinds *[]string) {
 		ntx := 0
@@ -295,7 +294,8 @@ func buildChain(c *vh.Ctx, spec cfgSpec, n int) *chainT {
 			}
 			fill(b, 6, &kinds)
 			num := b.Number()
-			if (hf5 == nil || num.Cmp(hf5) < 0) && i >= 2 && r.Intn(2) == 0 {
+			_ = num
+			if i >= 2 && r.Intn(2) == 0 { // one uncle is allowed before and after hard fork 5
 				// an uncle: the sibling of an ancestor 2..6 generations back
 				j := i - 1 - r.Intn(min(i-1, 5))
 				if j >= 0 && j < i && !usedUncle[j] {
@@ -1384,10 +1384,13 @@ func main() {
 	c := vh.Init("C01")
 	m := c.StartModel()
 	defer m.Close()
-	c.Res.Rule = "chains of 13 blocks from core.GenerateChain (faker engine) on two configurations (hard forks 1-9 at heights 2-12 with EIP155/158/Byzantium at 9; TestChainConfig with forks at 1-7), 0-6 transactions per block drawn from 13 kinds (transfers to funded / fresh / empty accounts, zero-value touches, calls into contracts that write and clear storage slots from a small pool and emit LOG1/LOG2, selfdestruct to varying beneficiaries, REVERT-or-LOG0, a contract calling another, creations with and without constructor effects, a failing creation, out-of-gas calls, precompiles, calls into contracts created earlier), homestead- and EIP155-signed, a miner that is also a sender, uncles before hard fork 5, empty blocks, a sibling per block and a competing fork. Each chain: (a) nine arrival histories compared observable by observable; commitments and verdict compared with the extracted model; (b) one block assembled by opt/miner's worker over a real TxPool and imported into a second node; (c) every single-field corruption of every block offered before the good block (invariance of head/TD/state/every database key) and re-derived variants afterwards. A case is distinct and non-trivial by (chain, history | block, corruption | builder parent and included count)."
+	c.Res.Rule = "chains of 13 blocks from core.GenerateChain (faker engine) on two configurations (hard forks 1-9 at heights 2-12 with EIP155/158/Byzantium at 9; TestChainConfig with forks at 1-7), 0-6 transactions per block drawn from 13 kinds (transfers to funded / fresh / empty accounts, zero-value touches, calls into contracts that write and clear storage slots from a small pool and emit LOG1/LOG2, selfdestruct to varying beneficiaries, REVERT-or-LOG0, a contract calling another, creations with and without constructor effects, a failing creation, out-of-gas calls, precompiles, calls into contracts created earlier), homestead- and EIP155-signed, a miner that is also a sender, uncles (at most one per block, 2-6 generations back), empty blocks, a sibling per block and a competing fork. Each chain: (a) nine arrival histories compared observable by observable; commitments and verdict compared with the extracted model; (b) one block assembled by opt/miner's worker over a real TxPool and imported into a second node; (c) every single-field corruption of every block offered before the good block (invariance of head/TD/state/every database key) and re-derived variants afterwards. A case is distinct and non-trivial by (chain, history | block, corruption | builder parent and included count)."
 	c.Assume("header verification and uncle verification are the faker engine's (all rules of C13 except the seal); seals are not checked")
 	c.Assume("database = aquadb.MemDatabase; restart = BlockChain.Stop + NewBlockChain on the same database")
 	c.Assume("Go map iteration orders and cache contents actually taken are sampled (one run per history); the theorems cover all of them in the model")
+	if c.Replay != "" {
+		c.Note("-replay: a C01 replay file carries the RLP of the main chain and of the offending block plus the history / corruption name; re-running the same -seed regenerates it (the generator is deterministic in the seed except for the worker's wall-clock timestamp)")
+	}
 	nchains := c.Scale(2, 12)
 	specs := configs()
 	for idx := 0; idx < nchains; idx++ {
